@@ -66,9 +66,12 @@ func main() {
 	var sps []spec
 	add := func(sp spec, tag string) {
 		name := fmt.Sprintf("%s-%s%03d", sp.Comp, tag, sp.Shard)
-		cs := vlib.ChildSpec{Name: name, Bin: cfg.BinPlain, Spec: sp, Timeout: 10 * time.Minute}
+		cs := vlib.ChildSpec{Name: name, Bin: cfg.BinPlain, Spec: sp, Timeout: time.Duration(cfg.N(150, 600)) * time.Second}
 		if sp.Strace {
-			cs.Wrap = []string{"strace", "-f", "-qq", "-e", "trace=%file", "-y", "-o", filepath.Join(cfg.OutDir, "child", name, "strace.out")}
+			// --seccomp-bpf: ptrace stops only for the traced (file-class) system calls instead of
+			// for every system call of the child; on a loaded machine every stop costs two
+			// scheduling round trips, which is what made traced children crawl
+			cs.Wrap = []string{"strace", "-f", "--seccomp-bpf", "-qq", "-e", "trace=%file", "-y", "-o", filepath.Join(cfg.OutDir, "child", name, "strace.out")}
 		}
 		specs = append(specs, cs)
 		sps = append(sps, sp)
@@ -99,7 +102,7 @@ func main() {
 				add(spec{Comp: comp, Tier: cfg.Tier, Seed: cfg.Seed, Shard: s, N: n, Depth: 1 + s%4, Strace: traced, Lazy: traced}, "s")
 			}
 			if !cfg.Thorough() {
-				add(spec{Comp: comp, Tier: cfg.Tier, Seed: cfg.Seed, Shard: 100, N: 250, Depth: 1 + int(cfg.Seed%4), Strace: true}, "t")
+				add(spec{Comp: comp, Tier: cfg.Tier, Seed: cfg.Seed, Shard: 100, N: 250, Depth: 1 + int(cfg.Seed%4), Strace: true, Lazy: true}, "t")
 			}
 		}
 	}
@@ -121,6 +124,7 @@ func main() {
 			return
 		}
 		rep.Count("children."+sp.Comp, 1)
+		rep.Max("child_wall_s_max", int64(r.Wall.Seconds()))
 		rep.Seen("root_depths", fmt.Sprint(sp.Depth))
 		if sp.Strace {
 			if fi, err := os.Stat(filepath.Join(r.Dir, "strace.out")); err != nil || fi.Size() == 0 {
